@@ -18,6 +18,7 @@
                                                      peer: the dialer's periodic refresh must join it again
 -/
 import Driver.Util
+import AM.Model.Registry
 
 namespace Driver.Mesh
 open Driver
@@ -31,8 +32,9 @@ def frac (s : String) : Nat × Nat :=
   | _ => (0, 1)
 
 /-- C08 (`AM.Cluster.healthy_no_duplicate` staggers the instances of a healthy cluster by their position): a node's
-    position is the number of live members — as memberlist reports them to that node — whose name sorts before its own,
-    so that nodes which agree on the members hold pairwise distinct positions. -/
+    position is `AM.Registry.position` of the members as memberlist reports them to that node — the number of live
+    members whose name sorts before its own — so that nodes which agree on the members hold pairwise distinct
+    positions (`AM.Registry.positions_distinct`). -/
 def posMsgs (tok : String) : List Msg :=
   let entries := (splitList "," tok).filterMap fun e =>
     match e.splitOn ":" with
@@ -40,16 +42,16 @@ def posMsgs (tok : String) : List Msg :=
     | _ => none
   let perNode := entries.filterMap fun (name, pos, names) =>
     if pos = "?" ∨ !names.contains name then none else
-    let want := (names.filter (· < name)).length
+    let want := AM.Registry.position (names.map fun n => (n, "")) name
     if toNat! pos = want then none else
-      some (Msg.propfail "healthy_no_duplicate" "position-not-index-in-members"
+      some (Msg.propfail "positions_distinct" "position-not-index-in-members"
         s!"node {name} reports position {pos}, its members are {joinList "." names}: position {want} expected")
   let agree : Bool := match entries with
     | [] => true
     | (_, _, n0) :: rest => rest.all fun (_, _, n) => n == n0
   let ps := entries.map (·.2.1)
   let dup := if agree && !ps.contains "?" && ps.eraseDups.length != ps.length then
-    [Msg.propfail "healthy_no_duplicate" "position-not-index-in-members" s!"nodes that agree on the members share a position: {tok}"] else []
+    [Msg.propfail "positions_distinct" "position-not-index-in-members" s!"nodes that agree on the members share a position: {tok}"] else []
   (perNode ++ dup).take 2 ++ (if entries.any (fun (name, _, names) => names.head? = some name ∧ name.startsWith "00RESTARTED") then [.tag "rejoin:new-name-sorts-first"] else [])
 
 def step (σ : St) (op obs : List String) : St × List Msg :=
